@@ -647,8 +647,15 @@ fn set_cases<T: El>(out: &mut Out, r: &mut Rng, n: usize) {
         let (how_b, how_c) = (r.below(4), r.below(4));
         let b = build_set(r, &xb, how_b);
         let cc = build_set(r, &xc, how_c);
-        let ha: Vec<u64> = a.iter().map(stateright::verif::stable_hash).collect();
-        let hb: Vec<u64> = b.iter().map(stateright::verif::stable_hash).collect();
+        // the inner hashes of the elements the REAL objects hold (checked against the generated lists), listed in
+        // generation order: the iteration order of a randomly keyed table differs from run to run, the cases file must not
+        for (s, xs) in [(&a, &xa), (&b, &xb)] {
+            let mut got: Vec<T> = s.iter().cloned().collect(); got.sort();
+            let mut want = xs.clone(); want.sort();
+            if got != want { out.v("hh-contents", &format!("{}: built from {:?}, holds {:?}", tag, xs, s)); }
+        }
+        let ha: Vec<u64> = xa.iter().map(stateright::verif::stable_hash).collect();
+        let hb: Vec<u64> = xb.iter().map(stateright::verif::stable_hash).collect();
         order_lines(out, &tag, &a, &b, &cc, &ha, &hb, c < 1);
         out.stat(&format!("{}-len-{}", tag, a.len()));
         let mut sa = xa.clone(); sa.sort();
@@ -746,8 +753,13 @@ fn map_cases<K: El, V: El>(out: &mut Out, r: &mut Rng, n: usize) {
         let (how_b, how_c) = (r.below(4), r.below(4));
         let b = build_map(r, &xb, how_b);
         let cc = build_map(r, &xc, how_c);
-        let ha: Vec<u64> = a.iter().map(|(k, v)| stateright::verif::stable_hash(&(k, v))).collect();
-        let hb: Vec<u64> = b.iter().map(|(k, v)| stateright::verif::stable_hash(&(k, v))).collect();
+        for (m, ps) in [(&a, &xa), (&b, &xb)] {
+            let mut got: Vec<(K, V)> = m.iter().map(|(k, v)| (k.clone(), v.clone())).collect(); got.sort();
+            let mut want = ps.clone(); want.sort();
+            if got != want { out.v("hh-contents", &format!("{}: built from {:?}, holds {:?}", tag, ps, m)); }
+        }
+        let ha: Vec<u64> = xa.iter().map(|(k, v)| stateright::verif::stable_hash(&(k, v))).collect();
+        let hb: Vec<u64> = xb.iter().map(|(k, v)| stateright::verif::stable_hash(&(k, v))).collect();
         order_lines(out, &tag, &a, &b, &cc, &ha, &hb, c < 1);
         out.stat(&format!("{}-len-{}", tag, a.len()));
         let mut sa = xa.clone(); sa.sort();
